@@ -1,6 +1,7 @@
 import Model.Frames
 import Proofs.Frames
 import Proofs.FramesRef
+import Gen.C06Sites
 
 /-! # C06 — function calls and closures behave as in Go regardless of frame recycling
 
@@ -237,6 +238,27 @@ theorem pool_refines_fresh (ops : List Op) (sf : State) (outs : List Slot)
   refine ⟨sp, ?_⟩
   show run true init ops = some (sp, outs)
   rw [h1, outsRef_eq h3 hdef]
+
+/-! ### the creation/call protocol at every function-value site of fast/*.go
+
+`Gen/C06Sites.lean` is regenerated from the source on every run (harness/c06extract.go): one row per
+function literal that calls `newEnv4Func` (616: `funcGeneric`, `macroCreate`, `func0ret0`, and every
+generated arm of `func0ret1`, `func1ret0`, `func1ret1`, `func2ret0`). -/
+
+/-- the part of the protocol the safety theorems rest on: the creator `func(env *Env) xr.Value`
+    runs `env.MarkUsedByClosure()` before building the closure (op `makeClosure`), and the wrapper
+    starts with `env := newEnv4Func(env, ...)` on that captured env (op `call`). -/
+def Gen.C06.Site.safe (s : Gen.C06.Site) : Bool := s.allocFirst && s.marks && s.outerParam
+
+/-- **func_sites_mark_and_alloc**: every site follows the mark-then-allocate protocol. -/
+theorem func_sites_mark_and_alloc : Gen.C06.sites.all Gen.C06.Site.safe = true := by decide +kernel
+
+/-- **func_sites_release**: every wrapper releases its frame with `env.freeEnv4Func()` and has no
+    `return` before the release (op `ret` on every normal return). -/
+theorem func_sites_release : Gen.C06.sites.all (·.frees) = true := by decide +kernel
+
+/-- the table is not empty (the extractor found the sites) -/
+theorem func_sites_found : 600 ≤ Gen.C06.sites.length := by decide +kernel
 
 /-! ### non-vacuity: concrete histories that exercise the hypotheses -/
 
